@@ -13,7 +13,7 @@ from rules.c03 import Blocks, make_oracle, mkop, op_sym
 from rules.c10 import _slot, _program
 
 
-def _graph(ctx, OpS, spec):
+def _graph(ctx, OpS, spec, idof=None):
     """spec: {name: (ops, [succ names])}, ops = [('store'|'load'|'int'|'err'|'return_'|'retsub', slotname?)]"""
     B = Blocks()
     slots = {}
@@ -26,7 +26,7 @@ def _graph(ctx, OpS, spec):
         lst = []
         for k, o in enumerate(ops):
             if o[0] in ("store", "load"):
-                s = slots.setdefault(o[1], _slot(o[1], 300 + len(slots), False))
+                s = slots.setdefault(o[1], _slot(o[1], (idof or (lambda n: 300 + n))(len(slots)), False))
                 # the op's expression behaves like a PyTeal expression: `==` builds an Eq expression, which type-checks
                 # its operands (the three variables hold uint64, bytes, uint64)
                 ex = Sym(f"expr:{name}:{k}:{o[0]} {o[1]}", attrs={"$isa": {"Expr"}, "ttype": "bytes" if o[1] == "y" else "uint64"})
@@ -42,7 +42,7 @@ def _graph(ctx, OpS, spec):
                     loads.append((name, k, o[1], op))
             elif o[0] == "int" and len(o) > 1:
                 # the index of the variable is taken (ScratchIndex / by-reference argument): not a write
-                s = slots.setdefault(o[1], _slot(o[1], 300 + len(slots), False))
+                s = slots.setdefault(o[1], _slot(o[1], (idof or (lambda n: 300 + n))(len(slots)), False))
                 op = mkop(OpS, "int", s)
             else:
                 op = mkop(OpS, o[0], *( [1] if o[0] == "int" else []))
@@ -127,9 +127,16 @@ def r17_1_walk(ctx):
             succ = rnd.sample(names, rnd.choice([0, 1, 1, 2, 2]))
             spec[nm] = (ops, succ)
         scen[f"random#{i}"] = (spec, "b0")
+    # the walk depends on which slots were stored, not on their numbers: the named scenarios are also evaluated with slot
+    # ids that coincide modulo 256 (an explicitly requested id next to automatically numbered ones) and with id 0
+    ID_SCHEMES = {"": None, " [ids 5, 261, 517, ...]": lambda n: 5 + 256 * n, " [ids 0, 256, 1, 257]": lambda n: (n % 2) * 256 + n // 2}
+    for nm, v in list(SCENARIOS.items()):
+        for tag in list(ID_SCHEMES)[1:]:
+            scen[nm + tag] = v
     f = None
     for name, (spec, entry) in scen.items():
-        B, blocks, slots, loads, holder, vs = _graph(ctx, OpS, spec)
+        tag = next((t for t in list(ID_SCHEMES)[1:] if name.endswith(t)), "")
+        B, blocks, slots, loads, holder, vs = _graph(ctx, OpS, spec, ID_SCHEMES[tag])
         f = vs
         want = _reference(spec, entry)
 
@@ -175,6 +182,8 @@ def r17_4_wiring(ctx):
     ctx.rule("R17.4", "the check runs for every routine with exactly the shared (global) slots assumed initialised, before any index is assigned, after the optimiser, and its first error is chained into the TealInternalError that stops compilation")
     f = ctx.model.find_func("assignScratchSlotsToSubroutines", "pyteal.compiler.scratchslots")
     css = ctx.model.find_func("collectScratchSlots", "pyteal.compiler.scratchslots")
+    # every module-level helper of the module is evaluated from its source when the routine calls it
+    helpers = {x.name: x.node for x in f.module.all_funcs if x.cls is None and x.name != f.name}
     ctx.analysed(f.fq)
     OpS = op_sym(ctx.model)
     B = Blocks()
@@ -200,7 +209,7 @@ def r17_4_wiring(ctx):
             return 256
         raise Unknown()
 
-    run_function(f.node, {"subroutineBlocks": prog}, make_oracle(OpS, B, extra), f.fq, resolver=lambda nm: css.node if nm == "collectScratchSlots" else None)
+    run_function(f.node, {"subroutineBlocks": prog}, make_oracle(OpS, B, extra), f.fq, resolver=helpers.get)
     ctx.check(set(captured) == {None, sub, sub_fp}, "R17.4", "assign:every-routine-checked", f"validateSlots was run for {sorted(map(repr, captured))}; every routine must be checked", f.where, fact={})
     for key, s in captured.items():
         ctx.check(s == {g}, "R17.4", f"assign:initial-set[{key!r}]", f"routine {key!r} is checked with {sorted(x.name for x in (s or []))} assumed initialised; exactly the slots shared between routines may be assumed (a routine-local slot with a requested id is still routine-local)", f.where, fact={"assumed": sorted(x.name for x in (s or []))})
@@ -212,7 +221,7 @@ def r17_4_wiring(ctx):
     for pname in extra_params:
         captured.clear()
         try:
-            run_function(f.node, {"subroutineBlocks": prog, pname: {l1, l2, r}}, make_oracle(OpS, B, extra), f.fq, resolver=lambda nm: css.node if nm == "collectScratchSlots" else None)
+            run_function(f.node, {"subroutineBlocks": prog, pname: {l1, l2, r}}, make_oracle(OpS, B, extra), f.fq, resolver=helpers.get)
         except (Raised, AnalysisError):
             continue  # the parameter is not a set of slots
         widened = sorted({x.name for s_ in captured.values() for x in (s_ or set())} - {g.name})
